@@ -217,6 +217,12 @@ def readdList (idx : List Nat) : List (Edge × Rec) → Nat → List (List Nat) 
 def shuffleCore (h : HG) (size : Nat) (idx : List Nat) (choices : List (List Nat)) : HG :=
   addMany (removeEdges h ((edgesOfSize h size).map (·.1))) (readdList idx (edgesOfSize h size) 0 choices)
 
+/-- `random_shuffle` BEFORE the repair of D27 - kept as a witness only, no theorem is about it: every hyperedge of
+    the size is removed and `add_edges(new_edges)` re-inserts all of them without weight and metadata -/
+def shuffleCoreUnrepaired (h : HG) (size : Nat) (idx : List Nat) (choices : List (List Nat)) : HG :=
+  addEdges (removeEdges h ((edgesOfSize h size).map (·.1)))
+    ((readdList idx (edgesOfSize h size) 0 choices).map (·.1))
+
 /-- `random_shuffle(hg, order, size, inplace, p = pn/pd, ...)`; `pn` may be negative or exceed `pd` (rejected) -/
 def randomShuffle (h : HG) (order size : Option Nat) (inplace : Bool) (pn : Int) (pd : Nat)
     (idx : List Nat) (choices : List (List Nat)) : Option CallResult :=
